@@ -54,6 +54,7 @@ func (vc *VC) streamDecls() {
 	vc.declareFun("streamLen", []string{"Int"}, "Int")
 	vc.declareFun("streamByte", []string{"Int", "Int"}, "Int")
 	vc.declareFun("streamClean", []string{"Int"}, "Bool")
+	vc.axiom("streamLen_range", "(forall ((r Int)) (! (and (<= 0 (streamLen r)) (<= (streamLen r) 1152921504606846976)) :pattern ((streamLen r))))")
 	vc.axiom("streamByte_range", "(forall ((r Int) (i Int)) (! (and (<= 0 (streamByte r i)) (<= (streamByte r i) 255)) :pattern ((streamByte r i))))")
 }
 
